@@ -224,6 +224,46 @@ class World:
                          "refused" if obs.get("refused") else sorted(obs.get("reported", {}))])
         return k, obs
 
+    def sync_with_write_fault(self, c, cut):
+        """a sync without token during which the write of the new token's state fails (ENOSPC after `cut` of the bytes); the request
+        must not claim success, and what counts is every later answer (oracle and model: Sync.syncFault)"""
+        import errno
+        import pickle
+        import types
+        import radicale.storage.multifilesystem.sync as rsync
+        hit = []
+
+        def dump(obj, f, *a, **k):
+            data = pickle.dumps(obj)
+            f.write(data[:{"nothing": 0, "half": len(data) // 2, "all-but-one": len(data) - 1}[cut]])
+            f.flush()
+            hit.append(1)
+            raise OSError(errno.ENOSPC, "No space left on device (injected)")
+        shim = types.SimpleNamespace(**{k: getattr(pickle, k) for k in dir(pickle) if not k.startswith("__")})
+        shim.dump = dump
+        orig = rsync.pickle
+        rsync.pickle = shim
+        try:
+            st, _, text = self.app.request("REPORT", c.path, sync_body(""), login="u:pw")
+        finally:
+            rsync.pickle = orig
+        self.log.append(["SYNC-DURING-WHICH-THE-TOKEN-WRITE-FAILS", c.name, cut, st, "write reached" if hit else "token file existed"])
+        # the model's step for it (theorem c07_failed_token_write): the state a sync with an unknown token leaves when the write was
+        # reached, an ordinary sync when the token's file existed already
+        if hit:
+            c.ops.append({"op": "sync", "arg": "unknown"})
+            c.real_sync.append({"refused": True, "kind": "fault", "from_k": None, "status": st})
+            if st < 400:
+                self.ctx.violation("a sync whose token could not be stored was answered %d" % st, {"log": self.log[-20:]})
+        else:
+            obs = self.parse_report(c, st, text)
+            c.ops.append({"op": "sync", "arg": "none"})
+            if not obs.get("refused") and "token" in obs:
+                obs["tid"] = c.token_ids.setdefault(obs["token"], len(c.token_ids))
+            c.real_sync.append(dict(obs, kind="none", from_k=None))
+        c.sync_index += 1
+        return st, bool(hit)
+
     def propfind_token(self, c):
         st, _, text = self.app.request("PROPFIND", c.path, PROPFIND_TOKEN, login="u:pw", HTTP_DEPTH="0")
         m = re.search(r"<(?:\w+:)?sync-token[^>]*>([^<]*)<", text)
@@ -247,11 +287,20 @@ def run_history(ctx, rng, hid, hist_sub, tok_sub, item_sub, length):
     w = World(ctx, hist_sub, tok_sub, item_sub)
     conf_name = "hist_sub=%s,tok_sub=%s,item_sub=%s" % (hist_sub, tok_sub, item_sub)
     ok = True
+    faults = hid % 4 == 3          # every fourth history has I/O faults while a new token is written
+    forced = None
     try:
         for step in range(length):
             c = w.colls[rng.choice(["c", "c", "c", "d"])]
             other = w.colls["d" if c.name == "c" else "c"]
             k = rng.random()
+            if forced is not None:
+                c, k = forced, 0.99
+                other = w.colls["d" if c.name == "c" else "c"]
+            if faults and forced is None and 0.60 <= k < 0.66:
+                w.sync_with_write_fault(c, rng.choice(["nothing", "half", "all-but-one"]))
+                forced = c           # the client tries again at once
+                continue
             if k < 0.22:
                 w.put(c, rng.choice(HREFS), rng.choice(UIDS), rng.randint(1, 2))
             elif k < 0.32:
@@ -277,17 +326,18 @@ def run_history(ctx, rng, hid, hist_sub, tok_sub, item_sub, length):
                 w.propfind_token(c)
             else:
                 # a sync
-                q = rng.random()
+                q = rng.random() if forced is None else 0.3
                 holder = None
                 if q < 0.12:
                     kind, raw = "malformed", rng.choice(MALFORMED)
                 elif q < 0.17:
                     kind, raw = "unknown", "http://radicale.org/ns/sync/" + "".join(rng.choice("0123456789abcdef") for _ in range(64))
-                elif q < 0.35 or not c.tokens:
+                elif q < 0.35 or not c.tokens or forced is not None:
                     kind, raw = "none", None
                 else:
                     kind, raw = "from", None
                     holder = rng.choice(c.tokens)
+                forced = None
                 before_listing = w.listing(c)
                 kidx, obs = w.sync(c, kind, holder, raw)
                 case = {"config": conf_name, "log": w.log[-40:]}
